@@ -126,6 +126,28 @@ def gen_words(tier, rng, rows):
     return words
 
 
+def regen_args():
+    """Re-translate decodeArg / the canDecode predicates (tools/a64args) into Gen/A64Args.lean. -> (changed, summary dict)"""
+    exe = os.path.join(C.BUILD, 'a64args')
+    rc, o, e = C.sh(['go', 'build', '-o', exe, '.'], cwd=os.path.join(C.VERIF, 'tools', 'a64args'), env=C.goenv())
+    if rc != 0:
+        raise C.Infra('building tools/a64args failed:\n' + e)
+    tmp = os.path.join(C.BUILD, 'A64Args.lean')
+    rc, o, e = C.sh([exe, '-repo', C.REPO, '-out', tmp])
+    if rc != 0 or not os.path.exists(tmp):
+        raise C.Infra('tools/a64args rejects internal/arch/arm64asm (decodeArg is no longer one switch over its first parameter, or the '
+                      'package does not type-check):\n' + (o + e)[-2000:])
+    dst = os.path.join(C.GEN_DIR, 'A64Args.lean')
+    new = open(tmp).read()
+    changed = not os.path.exists(dst) or open(dst).read() != new
+    if changed:
+        open(dst, 'w').write(new)
+    head = o.splitlines()[0] if o else ''
+    summ = {k: int(v) for k, v in (p.split('=') for p in head.split() if '=' in p)}
+    summ['untranslated'] = [l[len('UNTRANSLATED '):] for l in o.splitlines() if l.startswith('UNTRANSLATED ')]
+    return changed, summ
+
+
 def build_probes():
     helpers = C.helper_pkgs()
     b1, err = C.overlay_build('c17-dec', 'internal/arch/arm64asm',
@@ -221,7 +243,7 @@ def canon_pair(g, m):
         ga, ma = gf.get('args', '-').split(','), mf.get('args', '-').split(',')
         if len(ga) == len(ma):
             ga = ['?' if y == '?' else x for x, y in zip(ga, ma)]
-            g = f'row={gf.get("row")} op={gf.get("op")} args={",".join(ga)}'
+            g = f'row={gf.get("row")} op={gf.get("op")} args={",".join(ga)}' + (' !' + g.split(' !', 1)[1] if ' !' in g else '')
     return g
 
 
@@ -333,12 +355,14 @@ def sweep_segments(tier, rng):
     return segs, f'whole space at stride {st} (seeded phase) + every branch/address class range at stride {cst} + the SYS space at stride 1'
 
 
-def run_sweep(binary, segs, strcmp, budget_s):
+def run_sweep(binary, segs, strcmp, budget_s, workers=None):
     outp = os.path.join(C.BUILD, 'c17.sweep.json')
     if os.path.exists(outp):
         os.remove(outp)
     env = {'VERIF_C17_SEGS': ','.join(f'{lo:#x}:{hi:#x}:{st}' for lo, hi, st in segs), 'VERIF_C17_STRCMP': '1' if strcmp else '0',
            'VERIF_C17_BUDGET_S': str(budget_s)}
+    if workers:
+        env['VERIF_C17_WORKERS'] = str(workers)
     t0 = time.time()
     rc, log = C.run_probe(binary, 'TestVerifC17Sweep', '/dev/null', outp, env=env, timeout=budget_s + 900)
     if rc != 0 or not os.path.exists(outp):
@@ -376,10 +400,18 @@ def run(tier):
         old = os.path.join(C.BUILD, 'c17.tabledump')
         rows_, kinds_, ops_, rb_ = a64table.parse(open(old).read()) if os.path.exists(old) else ([], {}, {}, {})
         changed, nrows, info = False, len(rows_), {'rows': rows_}
+    args_err, args_changed, args_summ = None, False, {}
+    try:
+        args_changed, args_summ = regen_args()
+    except C.Infra as e:
+        args_err = str(e)      # the translator rejects the source: a broken obligation (the stale Gen/A64Args.lean stays in place)
     proof = C.prove('C17', leanchecker=(tier == 'thorough'))
     if dump_err:
         proof['ok'] = False
         proof['failed'].append(('table-dumper', dump_err[-1500:]))
+    if args_err:
+        proof['ok'] = False
+        proof['failed'].append(('a64args-translator', args_err[-1500:]))
     bins = build_probes()
     rows = info['rows']
 
@@ -416,6 +448,58 @@ def run(tier):
         if model is not None and canon_pair(g, model[i]) != model[i] and len(diffs) < 20:
             diffs.append((i, mops[i], g, model[i]))
 
+    # ---- 1b. the mechanically translated argument decoders / predicates (Gen/A64Args) against the real functions, and the
+    #          oracle-free model `decodeFull` against the real Decode
+    kinds_used = sorted({k for r in rows for k in r['args'] if k})
+    by_kind = {}
+    for r in rows:
+        for k in r['args']:
+            if k:
+                by_kind.setdefault(k, []).append(r)
+    per = 30 if tier == 'quick' else 400
+    aops = []
+    for k in kinds_used + [0, 9999]:
+        for j in range(per):
+            if k in by_kind and j % 4 != 3:
+                r = by_kind[k][j % len(by_kind[k])]
+                free = [b for b in range(32) if not (r['mask'] >> b) & 1]
+                w = r['value'] | deposit(free, rng.next())
+            else:
+                w = rng.next() & M32
+            aops.append(f'c17.arg {k} {w:#010x}')
+    cops = []
+    for r in rows:
+        if r.get('cname', '-') != '-':
+            free = [b for b in range(32) if not (r['mask'] >> b) & 1]
+            for j in range(per * 2):
+                cops.append(f'c17.cond {r["cname"]} {(r["value"] | deposit(free, rng.next())) & M32:#010x}')
+            for p in patterns(len(free))[:80]:
+                cops.append(f'c17.cond {r["cname"]} {(r["value"] | deposit(free, p)) & M32:#010x}')
+    tops = list(dict.fromkeys(aops + cops))
+    timpl = run_lines(bins[0], 'TestVerifC17', tops, 'c17.args')
+    tmodel, _ = run_model(tops, 'c17.args')
+    tdiffs, tbad, tuntr = [], [], 0
+    tdist = {}
+    for i, op in enumerate(tops):
+        a, b = timpl[i], (tmodel[i] if tmodel else None)
+        tdist[a] = tdist.get(a, 0) + 1
+        if a and a.startswith('panic'):
+            tbad.append((op, a))
+        if b == 'untranslated':
+            tuntr += 1
+        elif tmodel is not None and a != b and len(tdiffs) < 20:
+            tdiffs.append((i, op, a, b))
+    for op, a in tbad[:2]:
+        out.violation(f'{op}: the real function panicked: {a}', {'kind': 'impl-oracle', 'ops': [op], 'observed': a})
+    fmops = [m.replace('c17.dec', 'c17.full', 1) for m in mops]
+    fmodel, _ = run_model(fmops, 'c17.full')
+    fdiffs = []
+    if fmodel is not None:
+        for i, w in enumerate(wl):
+            g = (impl[i] or '').split(' ## ')[0]
+            if canon_pair(g, fmodel[i]) != fmodel[i] and len(fdiffs) < 20:
+                fdiffs.append((i, fmops[i], g, fmodel[i]))
+
     # ---- 2. scans of func_arm64.go (re-hosted) vs model vs the python statement of what they should return
     defs, _ = run_model([f'c17.def {w:#010x}' for w in wl], 'c17.def')
     plain, undec = [], []
@@ -448,7 +532,15 @@ def run(tier):
 
     # ---- 3. sweep (execution, not proof)
     segs, seg_text = sweep_segments(tier, rng)
-    sw = run_sweep(bins[0], segs, strcmp=(tier == 'quick'), budget_s=int(os.environ.get('VERIF_C17_BUDGET_S', '1300' if tier == 'thorough' else '150')))
+    budget = int(os.environ.get('VERIF_C17_BUDGET_S', '1300' if tier == 'thorough' else '150'))
+    sweep_crash = None
+    try:
+        sw = run_sweep(bins[0], segs, strcmp=(tier == 'quick'), budget_s=budget)
+    except C.Infra as e:
+        # the process died (a Go `fatal error`, e.g. concurrent map writes inside Decode, cannot be recovered): look for a concrete word
+        # with a single worker on a thinner sweep; if that passes, the crash itself is reported (no failing input)
+        sweep_crash = str(e)
+        sw = run_sweep(bins[0], [(lo, hi, st * 16) for lo, hi, st in segs], strcmp=False, budget_s=budget, workers=1)
     sweep_bad = []
     for key, what in (('Panic', 'Decode or Inst.String() panicked'), ('DiffDecodable', 'decodability differs from the reference'),
                       ('DiffOp', 'opcode differs from the reference'), ('DiffPcrel', 'PC-relative displacement differs from the reference')):
@@ -470,11 +562,25 @@ def run(tier):
 
     # ---- 4. correspondence / proof status when the oracle found nothing
     if not out.violations:
-        if diffs:
+        if sweep_crash:
+            out.violation('the sweep process was killed by the Go runtime while several goroutines called Decode (a fatal error is not recoverable); '
+                          'a single-threaded sweep of the same ranges passes', {'kind': 'sweep-crash', 'error': sweep_crash[-3000:],
+                          'broken': 'Decode is not safe to call concurrently / kills the process'}, no_failing_input=True)
+        elif diffs:
             i, op, a, b = diffs[0]
             out.violation(f'real decoder and model disagree on `{op}`: impl `{a}` model `{b}`',
                           {'kind': 'correspondence', 'ops': [ops[i]], 'impl': a, 'model': b, 'n_disagreements_shown': len(diffs),
                            'broken': 'Model/A64Dec.lean (first-match search / interpreted argument decoders) vs arm64asm.Decode'}, no_failing_input=True)
+        elif tdiffs:
+            i, op, a, b = tdiffs[0]
+            out.violation(f'translated argument decoder / predicate disagrees with the real function on `{op}`: impl `{a}` translation `{b}`',
+                          {'kind': 'correspondence', 'ops': [op], 'impl': a, 'model': b, 'broken': 'tools/a64args translation (Gen/A64Args.lean) vs decodeArg / canDecode',
+                           'n_disagreements_shown': len(tdiffs)}, no_failing_input=True)
+        elif fdiffs:
+            i, op, a, b = fdiffs[0]
+            out.violation(f'real decoder and the oracle-free model disagree on `{op}`: impl `{a}` model `{b}`',
+                          {'kind': 'correspondence', 'ops': [ops[i]], 'impl': a, 'model': b, 'broken': 'A64Dec.decodeFull (table + translated decoders) vs arm64asm.Decode',
+                           'n_disagreements_shown': len(fdiffs)}, no_failing_input=True)
         elif sdiffs:
             i, op, a, b = sdiffs[0]
             out.violation(f'func_arm64.go scan and model disagree: impl `{a}` model `{b}`',
@@ -495,9 +601,10 @@ def run(tier):
                          'reference: toolchain copy of golang.org/x/arch/arm64/arm64asm',
                          'NOT proved: totality of the ~290 other argument decoders, the canDecode predicates and Inst.String(): executed only (sweep)'],
         'theorems': proof['axioms'], 'proof_failures': proof['failed'],
-        'evaluations': len(wl) + len(sops) + sw['Words'],
+        'evaluations': len(wl) + len(sops) + len(tops) + sw['Words'],
         'distinct_nontrivial': len(nontrivial) + sum(1 for x in simpl if x and x.startswith('target=')),
-        'traces_validated_against_impl': (len(wl) - len(diffs) if model is not None else 0) + (len(sops) - unmod - len(sdiffs) if smodel is not None else 0),
+        'traces_validated_against_impl': (len(wl) - len(diffs) if model is not None else 0) + (len(wl) - len(fdiffs) if fmodel is not None else 0) +
+                                         (len(tops) - tuntr - len(tdiffs) if tmodel is not None else 0) + (len(sops) - unmod - len(sdiffs) if smodel is not None else 0),
         'exhaustive': exhaustive,
         'rule': 'line mode: one evaluation = one instruction word through goom Decode+String, the reference decoder and the model (under the oracle '
                 'admitting the row the real decoder chose); non-trivial = distinct successful decode observation (row, op, interpreted args). '
@@ -509,6 +616,10 @@ def run(tier):
             'table_rows_hit_by_real_decoder': len(rows_hit),
             'table_rows_never_chosen(shadowed, or canDecode always false)': sorted(set(range(nrows)) - {int(x) for x in rows_hit})[:64], 'line_mode_decodable': sum(1 for x in impl if x and x.startswith('row=')),
             'line_mode_string_text_differs_from_reference(not part of the property)': strdiff,
+            'translator(a64args)': dict(args_summ, gen_changed_this_run=args_changed),
+            'translated_fn_ops(real decodeArg / canDecode vs Gen.A64Args)': {'ops': len(tops), 'arg_ops': len(aops), 'cond_ops': len(cops), 'kinds': len(kinds_used),
+                                                                             'outcomes': tdist, 'untranslated_skipped': tuntr, 'disagreements': len(tdiffs)},
+            'oracle_free_model_vs_real_decoder': {'words': len(wl), 'disagreements': len(fdiffs)},
             'scan_ops': len(sops), 'scan_unmodelled(skipped in model comparison)': unmod,
             'scan_results': {k: sum(1 for x in simpl if x and x.split('=')[0] == k) for k in ('target', 'zero', 'err', 'size')},
             'sweep': {'segments': seg_text, 'words': sw['Words'], 'complete': sw.get('Complete'), 'fraction_of_2^32': round(sw['Words'] / (1 << 32), 4),
@@ -556,6 +667,15 @@ def replay(body):
             print(f'{op}\n  impl : {obs}\n  model: {md}\n  oracle: {why or "ok"}')
             if why or (md is not None and canon_pair(g, md) != md):
                 rc = 1
+    tops = [o for o in ops if o.startswith('c17.arg') or o.startswith('c17.cond')]
+    if tops:
+        timpl = run_lines(bins[0], 'TestVerifC17', tops, 'c17-replay.args')
+        tmodel, _ = run_model(tops, 'c17-replay.args')
+        for i, op in enumerate(tops):
+            md = tmodel[i] if tmodel else None
+            print(f'{op}\n  impl : {timpl[i]}\n  translation: {md}')
+            if (timpl[i] or '').startswith('panic') or (md not in (None, 'untranslated') and md != timpl[i]):
+                rc = 1
     sops = [o for o in ops if o.startswith('c17.inner') or o.startswith('c17.size')]
     if sops:
         simpl = run_lines(bins[1], 'TestVerifC17Func', sops, 'c17-replay.scan')
@@ -572,4 +692,5 @@ def replay(body):
 
 def regen_setup():
     changed, nrows, info = a64table.regen()
+    regen_args()
     return nrows, changed
